@@ -495,7 +495,7 @@ class Interp:
                 return self.builtins[name]
             raise_py("NameError", name)
         if isinstance(v, Unavailable):
-            raise Unsupported(f"module-level name {name} unavailable: {v.why}")
+            raise Unsupported(f"name {name} unavailable: {v.why}")
         return v
 
     @property
@@ -1138,6 +1138,26 @@ class Interp:
                 continue
         self.exec_block(st.orelse, env, module, qual)
 
+    def _names_assigned(self, stmts):
+        out = set()
+
+        class V(ast.NodeVisitor):
+            def visit_Name(self_, n):
+                if isinstance(n.ctx, (ast.Store, ast.Del)):
+                    out.add(n.id)
+
+            def visit_FunctionDef(self_, n):
+                out.add(n.name)  # the body of a nested function is another scope
+
+            def visit_Lambda(self_, n):
+                pass
+
+            def visit_ClassDef(self_, n):
+                out.add(n.name)
+        for s_ in stmts:
+            V().visit(s_)
+        return out
+
     def _loop_with_invariant(self, st, env, module, qual, spec):
         """Cut the loop at its invariant: (1) invariant holds on entry [obligation];
         (2) arbitrary iteration preserves it [obligation; that path then ends];
@@ -1151,6 +1171,12 @@ class Interp:
             ex.require(f"{where}:inv-entry:{name}", c, kind="loop-inv")
         # fork: preservation path or exit path
         pres = ex.branch(z3.Bool(core.fresh_name("explore-loop-body")))
+        # SOUNDNESS: every local name the loop body assigns is made unavailable before the contract's own havoc runs, so a name
+        # the contract does not re-establish (e.g. one introduced by a code change) cannot keep its pre-loop value at an arbitrary
+        # iteration or after the loop; the contract's havoc then overrides the names it gives a meaning to
+        for nm in self._names_assigned(st.body):
+            if nm in env.vars:
+                env.vars[nm] = Unavailable(f"assigned in {where}; not re-established by the loop contract")
         ghost = spec.havoc(self, env, entry=False)
         for name, c in spec.invariant(self, env, ghost):
             ex.assume(c)
